@@ -13,7 +13,7 @@ CLAIMED = {
  'C04': ('model_checking', 'SYS: every quiescent state of a successful one-shot run has exited Ok with every needed build done (skipped builds included); completeness of K is an obligation; SYSQ: no blocked state (circular wait between the relaying engine and the actors) within K steps under clamped capacities. Found F1 and F2 (fixed).', '4 C04'),
  'C07': ('model_checking', 'SYS with symbolic failing subset: no dependent of a failed target starts, the one-shot run returns Err iff something failed, watch mode keeps running.', '4 C07'),
  'C08': ('model_checking', 'SYS with duplicated roots: never two starts/results of a target, nothing outside the closure is launched, exactly once on success.', '4 C08'),
- 'C10': ('model_checking', 'SYS with processes that never exit by themselves: signal or failure at any step still leads to exit with every spawned process killed and reaped; SYSQ: a signal still leads to exit when the output channel is full (actors blocked in send).', '4 C10'),
+ 'C10': ('model_checking', 'SYS with processes that never exit by themselves: signal or failure at any step still leads to exit with every spawned process killed and reaped; SYSQ: a signal still leads to exit when the output channel is full (actors blocked in send); LOCAL: an actor never returns while a process it spawned is running and never replaces a running process.', '4 C10'),
  'C11': ('model_checking', 'SYS (incl. watch mode and a pinned aggregate-over-build-and-service graph): main stays alive iff a service is requested (directly or through aggregates); services are single-instance, running whenever a dependent build starts, and stopped at exit.', '4 C11'),
  'C02': ('other', 'symbolic execution of the real incremental::run over a symbolic file system (two invocations): run #2 = Skipped implies a complete record from run #1 and an unchanged declared tree by an independent reference semantics (listing, mtime-or-hash, command text).', '4 C02'),
  'C03': ('other', 'same exploration: record stored and nothing changed => Skipped; a completed run stores its record; found F3 (fixed).', '4 C03'),
@@ -28,7 +28,7 @@ CLAIMED = {
  'C14': ('other', 'decidable part only: the import walk of yaml::Config::load + ir::Config::from over solver-chosen project names and import edges (keys = names, named imports, unique names, termination, cycles/self-imports); MAINRUN with --clean: a configuration rejected at resolution time has nothing deleted before the error. The byte-level YAML clauses (no panic on any byte string, unknown keys, exactly one kind) are NOT decided (serde_yaml/yaml-rust not encodable within reach). Found F5 (fixed).', '4 C14'),
  'C15': ('other', 'symbolic execution of fs::list_files_in_resources / matches_extensions / is_work_dir over a symbolic tree with awkward names (dot-files, multi-dot, name = extension, non-UTF-8, .zinoma at depth, a symlink to a file / directory / nothing) against the reference listing (a link that resolves to a regular file counts as that file); transform_extensions normalisation.', '4 C15'),
  'C16': ('other', 'symbolic execution of TargetWatcher::new and its event closure over solver-chosen events (1-2 paths incl. non-UTF-8, Err events, full slot): no panic, notifies iff a relevant path, a later relevant event is not dropped, missing paths do not fail start-up; several input resources with nested/equal paths and different filters are each watched with their own filter. Found F4 (fixed).', '4 C16'),
- 'C17': ('model_checking', 'SYS with a symbolic set of hanging scripts: at quiescence every target none of whose transitive dependencies hangs has been started; over every path of incremental::run no user command / build script is awaited while a lock living in a static (shared between targets) is held.', '4 C17'),
+ 'C17': ('model_checking', 'SYS with a symbolic set of hanging scripts: at quiescence every target none of whose transitive dependencies hangs has been started; over every path of incremental::run no user command / build script is awaited while a lock living in a static (shared between targets) is held, and the build future holds no process-wide slot (static channel used as a pool) while its script runs.', '4 C17'),
 }
 checks = []
 for pid in ids:
